@@ -5,6 +5,7 @@ import (
 	"encoding/hex"
 	"fmt"
 	"math/bits"
+	"strings"
 	"sync/atomic"
 
 	"github.com/cosmos/cosmos-proto/internal/zzverif/hz"
@@ -18,7 +19,17 @@ type c15Case struct {
 	Offset int    `json:"offset,omitempty"`
 	BufLen int    `json:"buflen,omitempty"`
 	Bytes  string `json:"bytes_hex,omitempty"`
+	// Skip is a function of its argument: calls made before (hex) must not matter
+	History []string `json:"earlier_skip_calls_hex,omitempty"`
+	// position of the judged call in the deterministic history pass: whatever the code under test keeps between calls was
+	// left by ALL calls the pass made before it, so a replay re-executes the pass up to this position in a fresh process
+	PassPos int64 `json:"history_pass_position,omitempty"`
 }
+
+var (
+	passPos     int64      // judged calls made so far by the history pass (single goroutine)
+	judgeOnlyAt int64 = -1 // replay: make every call of the pass, judge only this one
+)
 
 // bitClass is the violation-key granularity for integer inputs: bit length of x.
 func bitClass(x uint64) int { return bits.Len64(x) }
@@ -82,10 +93,27 @@ func checkEncode(h *hz.H, v uint64, off, buflen int) bool {
 }
 
 // checkSkip returns (ok, wellFormed).
-func checkSkip(h *hz.H, b []byte) (bool, bool) {
+func checkSkip(h *hz.H, b []byte) (bool, bool) { return checkSkipAfter(h, b, nil) }
+
+// checkSkipAfter judges Skip(b) after the given earlier calls have been made (their results are not judged here).
+func checkSkipAfter(h *hz.H, b []byte, history [][]byte) (bool, bool) {
 	var n int
 	var err error
 	c := c15Case{Kind: "skip", Bytes: hex.EncodeToString(b)}
+	for _, e := range history {
+		c.History = append(c.History, hex.EncodeToString(e))
+		e := append([]byte(nil), e...)
+		hz.Catch(func() { runtime.Skip(e) })
+	}
+	if len(history) > 0 {
+		passPos++
+		c.PassPos = passPos
+		if judgeOnlyAt >= 0 && passPos != judgeOnlyAt {
+			in := append([]byte(nil), b...)
+			hz.Catch(func() { runtime.Skip(in) })
+			return true, false
+		}
+	}
 	in := append([]byte(nil), b...)
 	p := hz.Catch(func() { n, err = runtime.Skip(in) })
 	wt := -1
@@ -93,6 +121,9 @@ func checkSkip(h *hz.H, b []byte) (bool, bool) {
 		wt = int(b[0] & 7)
 	}
 	key := fmt.Sprintf("C15/skip/wt=%d", wt)
+	if len(history) > 0 {
+		key = fmt.Sprintf("C15/skip-after-%d-earlier-calls/wt=%d", len(history), wt)
+	}
 	if p != nil {
 		h.Violate(key+"/panic", fmt.Sprintf("Skip(%x) panicked: %v", b, p), c)
 		return false, false
@@ -108,12 +139,66 @@ func checkSkip(h *hz.H, b []byte) (bool, bool) {
 	_, _, want := protowire.ConsumeField(b)
 	if want > 0 {
 		if err != nil || n != want {
-			h.Violate(key+"/length", fmt.Sprintf("Skip(%x) = (%d, %v); protowire.ConsumeField accepts a record of %d bytes", b, n, err, want), c)
+			h.Violate(key+"/length", fmt.Sprintf("Skip(%x) = (%d, %v)%s; protowire.ConsumeField accepts a record of %d bytes", b, n, err, afterText(history, c.PassPos), want), c)
 			return false, true
 		}
 		return true, true
 	}
 	return true, false
+}
+
+func afterText(history [][]byte, pos int64) string {
+	if len(history) == 0 {
+		return ""
+	}
+	var hs []string
+	for _, e := range history {
+		hs = append(hs, hex.EncodeToString(e))
+	}
+	return fmt.Sprintf(" as call group %d of the history pass (fresh process, one goroutine; every earlier group of the pass was executed before it), directly after Skip(%s)", pos, strings.Join(hs, "), Skip("))
+}
+
+// runSkipHistories: Skip is a function of its argument. Every ordered pair (and every triple over a smaller set) of calls
+// over a set of short inputs - well-formed records of every wire type, groups, and inputs that fail at every point inside
+// an open group - in one goroutine of a process that has made no other Skip call: the last call's result is judged.
+func runSkipHistories(h *hz.H) {
+	g := func(num protowire.Number, body ...byte) []byte {
+		return append(append(tagBytesC15(num, protowire.StartGroupType), body...), tagBytesC15(num, protowire.EndGroupType)...)
+	}
+	var set [][]byte
+	set = append(set, []byte{0x08, 0x01}, []byte{0x08, 0xac, 0x02}, []byte{0x0d, 1, 2, 3, 4}, []byte{0x09, 1, 2, 3, 4, 5, 6, 7, 8}, []byte{0x0a, 0x00}, []byte{0x0a, 0x02, 0x61, 0x62},
+		g(1), g(3, 0x08, 0x01), g(1, g(2, 0x0a, 0x01, 0x78)...), g(5, g(6, g(7)...)...), append(g(3, 0x08, 0x01), 0x08, 0x01, 0x2c),
+		[]byte{0x12, 0x03, 0x0b, 0x08, 0x01}) // a length-delimited record whose payload looks like an unfinished group
+	// failing inputs: every proper prefix of the group records, wrong end-group numbers, a bare end-group, bad varints inside a group
+	for _, w := range [][]byte{g(5, g(6, g(7)...)...), g(3, 0x08, 0x01), g(1, g(2, 0x0a, 0x01, 0x78)...)} {
+		for cut := 1; cut < len(w); cut++ {
+			set = append(set, w[:cut])
+		}
+	}
+	set = append(set, []byte{0x2b, 0x08, 0x01}, []byte{0x0b, 0x14}, []byte{0x0c}, []byte{0x0b, 0x0a, 0xff, 0xff, 0xff, 0xff, 0xff, 0xff, 0xff, 0xff, 0xff, 0x01}, []byte{0x0b, 0x0f}, []byte{0x0b, 0x00}, []byte{})
+	n := int64(0)
+	for _, p := range set {
+		for _, x := range set {
+			checkSkipAfter(h, x, [][]byte{p})
+			n++
+		}
+	}
+	small := set
+	if len(small) > 24 && !h.Thorough() {
+		small = append(append([][]byte{}, set[:12]...), set[len(set)-12:]...)
+	}
+	for _, p := range small {
+		for _, q := range small {
+			for _, x := range small {
+				checkSkipAfter(h, x, [][]byte{p, q})
+				n++
+			}
+		}
+	}
+	h.EvalN(n)
+	h.DistinctN(n)
+	h.Rep.Bounds["skip_call_histories"] = n
+	h.Rep.Bounds["skip_history_input_set"] = len(set)
 }
 
 func tagBytesC15(n protowire.Number, t protowire.Type) []byte { return protowire.AppendTag(nil, n, t) }
@@ -162,6 +247,7 @@ func skipAlphabet() []byte {
 }
 
 func runC15(h *hz.H) {
+	runSkipHistories(h) // first: nothing has called Skip in this process yet
 	sweep := uint64(1) << 24
 	if h.Thorough() {
 		sweep = 1 << 32
@@ -442,7 +528,12 @@ func replayC15(h *hz.H) {
 		checkEncode(h, c.X, c.Offset, c.BufLen)
 	case "skip":
 		b, _ := hex.DecodeString(c.Bytes)
-		checkSkip(h, b)
+		if c.PassPos > 0 {
+			judgeOnlyAt = c.PassPos
+			runSkipHistories(h)
+		} else {
+			checkSkip(h, b)
+		}
 	}
 	h.Eval(true, 1)
 	h.Eval(true, 2)
